@@ -81,6 +81,8 @@ def expand(spec):
             vmin = min(int(spec.get('vmin', 0)), vmax - 1)
             if kind == 'small':           # heavy ties
                 c = rng.integers(vmin, max(vmin + 1, min(vmax, 7)), size=N)
+            elif kind == 'stair':         # few values; the largest of column j is the smallest of column j+1
+                c = rng.integers(min(3 * j, vmax - 1), min(3 * j + 4, vmax), size=N) if vmax > 3 * j + 1 else rng.integers(vmin, vmax, size=N)
             elif kind == 'const':
                 c = np.full(N, int(rng.integers(vmin, vmax)))
             elif kind == 'ramp':
